@@ -107,6 +107,10 @@ impl<'a> ParseChain<ActionExprChain> for ActionExprChainBuilder<'a> {
             chain.append_member(action_expr);
 
             if let Some(next) = next {
+                // Wrappers are closed implicitly at the end of every step.
+                if next.application_type == ApplicationType::Deferred {
+                    wrapper_count = 0;
+                }
                 wrapper_count += match next.move_type {
                     MoveType::Wrap => 1,
                     MoveType::Unwrap => -1,
